@@ -912,7 +912,8 @@ theorem mem_selected {g : Graph} {tr : List Ev} {y h : Nat} (hsel : h ∈ select
 theorem try_closed {g : Graph} {s : St} (hw : WF g) (hI : Inv g s) {t i y : Nat}
     (hcmd : g.cmdAt t i = some (.try_ y)) (hret : Ev.ret t i true ∈ s.tr) (hna : s.pc t ≠ .afterCmd i) :
     hasDone s.tr (g.tryd y).body ∧
-    (∀ h ∈ g.handlers y, (Ev.cmd h 0 ∈ s.tr ∨ Ev.hacc h ∈ s.tr) → hasDone s.tr h) ∧
+    (∀ h ∈ g.handlers y, Ev.cmd h 0 ∈ s.tr → hasDone s.tr h) ∧
+    (∀ h ∈ g.handlers y, Ev.hacc h ∈ s.tr → hasDone s.tr h ∨ acceptedAfterCause g s.tr h) ∧
     (∀ h ∈ selected g s.tr y, handlerFate g s.tr y h) := by
   have ht : t < g.n := by
     rcases Nat.lt_or_ge t g.n with h | h
@@ -936,13 +937,11 @@ theorem try_closed {g : Graph} {s : St} (hw : WF g) (hI : Inv g s) {t i y : Nat}
     intro h hh ha
     apply finished_of_not_parentAt hI ha
     exact not_parentAt (handler_facts hw hy hh).2.2 hown
-  refine ⟨hbd, ?_, ?_⟩
+  refine ⟨hbd, ?_, ?_, ?_⟩
   · intro h hh hc
-    have ha : (s.pc h).accepted = true := by
-      rcases hc with hc | hc
-      · exact accepted_of_cmd hI hc
-      · exact hI.ha h hc
-    exact ((hI.ti h).fin (hfin h hh ha)).1
+    exact ((hI.ti h).fin (hfin h hh (accepted_of_cmd hI hc))).1
+  · intro h hh hc
+    exact Or.inl ((hI.ti h).fin (hfin h hh (hI.ha h hc))).1
   · -- the try goroutine is done
     have Y := hI.yi y hy
     have hst : s.tg y ≠ .idle := Y.started' (by rw [ho, hi]; exact hret)
@@ -967,7 +966,7 @@ theorem try_closed {g : Graph} {s : St} (hw : WF g) (hI : Inv g s) {t i y : Nat}
     · have hf := hfin h hhand ha
       by_cases hc0 : Ev.cmd h 0 ∈ s.tr
       · exact Or.inl hc0
-      · refine Or.inr (Or.inl ⟨hac, ?_⟩)
+      · refine Or.inr (Or.inl ⟨hac, Or.inl ?_⟩)
         rcases ((hI.ti h).fin hf).1 with hd | hd
         · exact absurd (cmd0_of_done_true hw hI.ok (handler_facts hw hy hhand).1 hd) hc0
         · exact hd
